@@ -1,17 +1,17 @@
 /-
 C05 — keep-balance never trashes a replica that is still needed or too new.
 
-All theorems are about `balanceBlock env classes sorter mounts reps` (Model/C05.lean) for ANY number
-of services, mounts and classes, any flags, replication counts, device ids and timestamps, and for
-EVERY behaviour of the unstable per-class sort: `sorter` is arbitrary, the only hypothesis
-(`BalanceOK` / `PlanOK`) is that each of its calls during the run returned a permutation of its
-input that is sorted w.r.t. the code's comparator. `plan` adds cleanupMounts and setupLookupTables
-in front.
+All theorems are about `balanceBlock env classes sorter mounts reps` (Model/C05.lean, the code after
+the fix: commits for F1, F2, F12) for ANY number of services, mounts and classes, any flags,
+replication counts, device ids (blank, unique, shared between servers) and timestamps, and for EVERY
+behaviour of the unstable per-class sort: `sorter` is arbitrary, the only hypothesis (`BalanceOK` /
+`PlanOK`) is that each of its calls during the run returned a permutation of its input that is sorted
+w.r.t. the code's comparator. `plan` adds cleanupMounts and setupLookupTables in front.
 
-Findings. `C05_trash_safe_Full` (the central clause at full strength) is FALSE of the model and of
-the code (F1, F2 — `C05_trash_safe_full_fails`); it is proved under one mount per server and no
-device mounted twice (`C05_trash_safe_partial`). `C05_lost_Full` is false when no mount is writable
-(F12 — `C05_lost_full_fails`); `C05_lost_reported` is the exact characterisation.
+The central clause `C05_trash_safe`, the physical under-replication clause and the lost clause hold
+at full strength: no hypothesis on servers, devices or classes beyond (a) mount identities are
+distinct (pointer identity in Go) and (b) mounts of one device agree on classes and replication
+(a device has one configuration).
 -/
 import ArvVerif.Proofs.C05Lost
 import ArvVerif.Proofs.C05Setup
@@ -93,18 +93,31 @@ example :
 
 /-! ## trash: under-replication -/
 
-/-- If the code's own under-replication test fires for some class of the loop (the in-class
-replication it counts is below desired), no trash is emitted for the block at all. -/
+/-- If for some class of the loop with desired > 0 the replication of the block, counted over
+distinct physical devices, is below desired, no trash is emitted for the block at all. -/
 theorem C05_underreplicated_no_trash (hok : BalanceOK env classes sorter mounts reps)
+    (hid : DistinctIds mounts) (hcons : DeviceConsistent mounts)
     (c : Class) (hc : c ∈ classes) (hd : env.desired c ≠ 0)
-    (hu : classRepl c (initSlots mounts reps) < env.desired c) :
+    (hu : physRepl c (balanceBlock env classes sorter mounts reps).heldBefore < env.desired c) :
     ∀ p ∈ (balanceBlock env classes sorter mounts reps).changes, ∀ t, p.2 ≠ .trash t := by
   intro p hp t ht
   have h := mem_changes hp
   have htr := change_trash (h.2 ▸ ht)
-  have hur : (balanceBlock env classes sorter mounts reps).final.underrep = true :=
-    runClasses_underrep env sorter c classes _ hok hc hd hu
-  -- every final slot with a replica is wanted
+  have hur : (balanceBlock env classes sorter mounts reps).final.underrep = true := by
+    apply underrep_of_phys env classes sorter mounts reps hok hid hcons c hc hd
+    have hrel : CoreRel (finalWant (balanceBlock env classes sorter mounts reps).final) (initSlots mounts reps) :=
+      (coreRel_finalWant _).trans (runClasses_coreRel env sorter classes _ hok)
+    have hkc : KeyConsistent c (heldOf (initSlots mounts reps)) := by
+      apply (keyConsistent_of c hid hcons).sub
+      intro m hm
+      obtain ⟨s, hs, e1, _⟩ := mem_heldOf.1 hm
+      rw [← e1]; exact (mem_initSlots hs).1
+    have e : (balanceBlock env classes sorter mounts reps).heldBefore =
+        heldOf (finalWant (balanceBlock env classes sorter mounts reps).final) :=
+      heldBefore_eq env reps _ _ _
+    rw [e] at hu
+    rw [physRepl_congr c _ _ hkc (fun m => (heldOf_coreRel hrel m).symm)]
+    exact hu
   have hs := h.1
   unfold finalWant at hs
   obtain ⟨s0, _, e⟩ := List.mem_map.1 hs
@@ -116,34 +129,17 @@ theorem C05_underreplicated_no_trash (hok : BalanceOK env classes sorter mounts 
   rw [e, htr.2.1] at hw
   cases hw
 
-/-- …and that test is sound for the physical reading when no device is mounted twice: a class
-whose replication over distinct devices is below desired blocks every trash. (False with a device
-mounted on two servers: F1.) -/
-theorem C05_underreplicated_sound (hok : BalanceOK env classes sorter mounts reps)
-    (hid : mounts.Pairwise (fun a b => a.id ≠ b.id)) (hdev : mounts.Pairwise (fun a b => a.dev = b.dev → a.dev = 0))
-    (c : Class) (hc : c ∈ classes) (hd : env.desired c ≠ 0)
-    (hu : physRepl c (balanceBlock env classes sorter mounts reps).heldBefore < env.desired c) :
-    ∀ p ∈ (balanceBlock env classes sorter mounts reps).changes, ∀ t, p.2 ≠ .trash t := by
-  apply C05_underreplicated_no_trash env classes sorter mounts reps hok c hc hd
-  have hap : mounts.Pairwise DevApart := (hid.and hdev).imp (fun {a b} h => ⟨h.1, h.2⟩)
-  have hap0 : ((initSlots mounts reps).map (·.mnt)).Pairwise DevApart := by rw [initSlots_mnt]; exact hap
-  have hrel := runClasses_coreRel env sorter classes _ hok
-  have hrelF := (coreRel_finalWant (balanceBlock env classes sorter mounts reps).final).trans hrel
-  have hapF := devApart_pairwise_of_perm (coreRel_mnt_perm hrelF) hap0
-  have e := physRepl_before env reps c _ (balanceBlock env classes sorter mounts reps).final hapF
-  have e' : physRepl c (balanceBlock env classes sorter mounts reps).heldBefore =
-      ssum (haveTerm c) (finalWant (balanceBlock env classes sorter mounts reps).final) := e
-  rw [e', haveSum_coreRel c hrelF, ← classRepl_eq_ssum] at hu
-  exact hu
-
-/-- non-vacuity: desired 3 with two replicas (one badly placed and old) — nothing is trashed -/
+/-- non-vacuity: desired 3 with two replicas (one badly placed and old) — nothing is trashed; and
+the F1 layout with desired 3: device 7 is mounted twice but counts once (2 < 3), nothing trashed -/
 example :
     let env := wEnv (fun c => if c = 0 then 3 else 0)
-    BalanceOK env [0] (wSorter env) okMounts okReps ∧ okMounts.Pairwise DevApart ∧
-    physRepl 0 (balanceBlock env [0] (wSorter env) okMounts okReps).heldBefore = 3 ∧
-    BalanceOK env [0] (wSorter env) okMounts [⟨2, 2, 900⟩, ⟨3, 3, 800⟩] ∧
-    physRepl 0 (balanceBlock env [0] (wSorter env) okMounts [⟨2, 2, 900⟩, ⟨3, 3, 800⟩]).heldBefore = 2 := by
-  refine ⟨?_, by unfold DevApart; decide, by decide, ?_, by decide⟩ <;>
+    BalanceOK env [0] (wSorter env) okMounts [⟨2, 2, 900⟩, ⟨3, 3, 800⟩] ∧ DistinctIds okMounts ∧
+    DeviceConsistent okMounts ∧
+    physRepl 0 (balanceBlock env [0] (wSorter env) okMounts [⟨2, 2, 900⟩, ⟨3, 3, 800⟩]).heldBefore = 2 ∧
+    BalanceOK env [0] (wSorter env) f1Mounts f1Reps ∧ DeviceConsistent f1Mounts ∧
+    physRepl 0 (balanceBlock env [0] (wSorter env) f1Mounts f1Reps).heldBefore = 2 := by
+  refine ⟨?_, by unfold DistinctIds; decide, by unfold DeviceConsistent; decide, by decide, ?_,
+    by unfold DeviceConsistent; decide, by decide⟩ <;>
   · unfold BalanceOK; simp only [RunOK]; decide
 
 /-! ## pulls -/
@@ -162,25 +158,26 @@ theorem C05_pull_targets (hok : BalanceOK env classes sorter mounts reps)
   obtain ⟨r, rest, hr, hsrc⟩ := hpl.2.2.2
   exact ⟨hq.1, hpl.2.2.1, by rw [← hq.2]; exact hpl.1, r, by rw [hr]; exact List.mem_cons_self .., hsrc⟩
 
-example : okMounts.Pairwise Apart ∧ ∃ p ∈ okResult.changes, p.2 = .pull (some 1) := by
-  refine ⟨by unfold Apart; decide, by decide⟩
+example : ∃ p ∈ okResult.changes, p.2 = .pull (some 1) := by decide
 
 /-! ## lost -/
 
-/-- Exactly when `lost` is reported: the block has no replica, some class of the loop has desired
-> 0, and some mount is writable. -/
-theorem C05_lost_reported (hok : BalanceOK env classes sorter mounts reps) (hid : DistinctIds mounts) :
+/-- A block is reported lost exactly when it has no replica anywhere and is referenced (some class
+of the loop has desired > 0) — whatever the mounts are. -/
+theorem C05_lost_reported :
     (balanceBlock env classes sorter mounts reps).lost = true ↔
-      reps = [] ∧ (∃ c ∈ classes, env.desired c ≠ 0) ∧ ∃ m ∈ mounts, m.ro = false := by
+      reps = [] ∧ ∃ c ∈ classes, env.desired c ≠ 0 := by
+  show lostFlag env classes reps (balanceBlock env classes sorter mounts reps).changes = true ↔ _
+  unfold lostFlag
+  rw [Bool.or_eq_true, Bool.and_eq_true, classes_any_iff]
   constructor
-  · intro hl
-    unfold Result.lost at hl
-    obtain ⟨p, hp, hpl⟩ := List.any_eq_true.1 hl
-    have hpl' : p.2 = .lost := by simpa using hpl
-    have h := mem_changes hp
-    have hch := change_lost.1 (h.2 ▸ hpl')
-    refine ⟨hch.2.2, ?_, ?_⟩
-    · -- some class is active, otherwise nothing is ever wanted
+  · rintro (hl | ⟨he, hact⟩)
+    · obtain ⟨p, hp, hpl⟩ := List.any_eq_true.1 hl
+      have hpl' : p.2 = .lost := by simpa using hpl
+      have h := mem_changes hp
+      have hch := change_lost.1 (h.2 ▸ hpl')
+      refine ⟨hch.2.2, ?_⟩
+      -- some class is active, otherwise nothing is ever wanted
       apply Classical.byContradiction
       intro hno
       have hz : ∀ c ∈ classes, env.desired c = 0 := by
@@ -204,69 +201,16 @@ theorem C05_lost_reported (hok : BalanceOK env classes sorter mounts reps) (hid 
       rw [← e] at hch
       rw [hw0] at hch
       cases hch.2.1
-    · have hinv : EmptyWantWritable (balanceBlock env classes sorter mounts reps).final :=
-        runClasses_inv env sorter EmptyWantWritable
-          (fun c b _ hS hI => classIter_emptyWantWritable env c _ b hS.1 hI) classes _ hok
-          (initSlots_emptyWantWritable mounts reps hid)
-      have hs := h.1
-      unfold finalWant at hs
-      obtain ⟨s0, hs0, e⟩ := List.mem_map.1 hs
-      have hr0 : s0.repl = none := by rw [← e] at hch; simpa using hch.1
-      have hfs : finalSlot (balanceBlock env classes sorter mounts reps).final s0 = s0 := by
-        unfold finalSlot; rw [hr0]
-      rw [hfs] at e
-      rw [← e] at hch
-      have hro := hinv.2 s0 hs0 hch.1 hch.2.1
-      have hm := runClasses_forall (fun s => s.mnt ∈ mounts) (fun s hs => hs) env sorter classes _ hok
-        (fun s hs => (mem_initSlots hs).1) s0 hs0
-      exact ⟨s0.mnt, hm, hro⟩
-  · rintro ⟨hreps, hact, ⟨m, hm, hro⟩⟩
-    subst hreps
-    have hnone0 : ∀ s ∈ initSlots mounts [], s.repl = none := by
-      intro s hs; rw [(mem_initSlots hs).2.1]; rfl
-    have hw0 : ∃ w ∈ initSlots mounts [], w.mnt.ro = false := by
-      refine ⟨{ mnt := m, repl := replicaOn [] m.id, want := (replicaOn [] m.id).isSome && m.ro }, ?_, hro⟩
-      unfold initSlots
-      exact List.mem_map.2 ⟨m, hm, rfl⟩
-    obtain ⟨s, hs, hw⟩ := runClasses_wants env sorter classes _ hok hnone0 hw0 hact
-    have hnone : s.repl = none :=
-      runClasses_forall (fun s => s.repl = none) (fun s hs => hs) env sorter classes _ hok hnone0 s hs
-    unfold Result.lost
-    rw [List.any_eq_true]
-    refine ⟨(finalSlot (balanceBlock env classes sorter mounts []).final s,
-      change env [] (finalSlot (balanceBlock env classes sorter mounts []).final s)), ?_, ?_⟩
-    · unfold balanceBlock
-      exact List.mem_map.2 ⟨_, List.mem_map.2 ⟨s, hs, rfl⟩, rfl⟩
-    · have hfs : finalSlot (balanceBlock env classes sorter mounts []).final s = s := by
-        unfold finalSlot; rw [hnone]
-      rw [hfs, change_lost.2 ⟨hnone, hw, rfl⟩]
-      rfl
+    · exact ⟨by simpa using he, hact⟩
+  · rintro ⟨hreps, hact⟩
+    right
+    exact ⟨by rw [hreps]; rfl, hact⟩
 
-/-- The property's wording at full strength: a referenced block (desired > 0 for a class of the
-loop) without any replica is reported lost. -/
-def C05_lost_Full : Prop :=
-  ∀ (env : Env) (classes : List Class) (sorter : Class → List Slot → List Slot) (mounts : List Mount),
-    BalanceOK env classes sorter mounts [] → DistinctIds mounts → (∃ c ∈ classes, env.desired c ≠ 0) →
-    (balanceBlock env classes sorter mounts []).lost = true
-
-/-- F12: with one read-only mount, desired 2 and no replica, nothing is reported. -/
-theorem C05_lost_full_fails : ¬ C05_lost_Full := by
-  intro h
-  have := h f12Env [0] (wSorter f12Env) f12Mounts
-    (by unfold BalanceOK; simp only [RunOK]; decide) (by unfold DistinctIds; decide) ⟨0, by decide, by decide⟩
-  revert this
-  decide
-
-/-- what does hold: lost is reported as soon as some mount is writable -/
-theorem C05_lost_partial (hok : BalanceOK env classes sorter mounts []) (hid : DistinctIds mounts)
-    (hact : ∃ c ∈ classes, env.desired c ≠ 0) (hw : ∃ m ∈ mounts, m.ro = false) :
-    (balanceBlock env classes sorter mounts []).lost = true :=
-  (C05_lost_reported env classes sorter mounts [] hok hid).2 ⟨rfl, hact, hw⟩
-
-example : BalanceOK okEnv [0] (wSorter okEnv) okMounts [] ∧ DistinctIds okMounts ∧
-    (balanceBlock okEnv [0] (wSorter okEnv) okMounts []).lost = true := by
-  refine ⟨?_, by unfold DistinctIds; decide, by decide⟩
-  unfold BalanceOK; simp only [RunOK]; decide
+/-- the F12 layout (one read-only mount, desired 2, no replica) is now reported; a block that
+nobody references is not -/
+example : f12Result.lost = true ∧
+    (balanceBlock (wEnv (fun _ => 0)) [0] (wSorter (wEnv (fun _ => 0))) f12Mounts []).lost = false := by
+  refine ⟨by decide, by decide⟩
 
 /-! ## what is sent to keepstore -/
 
@@ -345,119 +289,59 @@ example : classesOf 1 (cleanupMounts rawLayout) = [1, 3] ∧
 
 /-! ## the central clause -/
 
-/-- mounts of one device agree on classes and replication (a device has one configuration) -/
-def DeviceConsistent (mounts : List Mount) : Prop :=
-  ∀ a ∈ mounts, ∀ b ∈ mounts, a.dev ≠ 0 → a.dev = b.dev → a.classes = b.classes ∧ a.repl = b.repl
-
-/-- `C05_trash_safe` at full strength: carrying out every computed trash request while no pull
-succeeds leaves each class of the loop with desired d > 0 at replication ≥ min(d, previous),
-counted over distinct physical devices — for every layout. -/
-def C05_trash_safe_Full : Prop :=
-  ∀ (env : Env) (classes : List Class) (sorter : Class → List Slot → List Slot) (mounts : List Mount)
-    (reps : List Replica),
-    BalanceOK env classes sorter mounts reps → DistinctIds mounts → DeviceConsistent mounts →
-    ∀ c ∈ classes, env.desired c ≠ 0 →
-      min (env.desired c) (physRepl c (balanceBlock env classes sorter mounts reps).heldBefore) ≤
-        physRepl c (balanceBlock env classes sorter mounts reps).heldAfter
-
-/-- the F1 layout (a device mounted on two servers) refutes the full statement: before 2, after 1 -/
-theorem C05_trash_safe_fails_F1 :
-    BalanceOK f1Env [0] (wSorter f1Env) f1Mounts f1Reps ∧ DistinctIds f1Mounts ∧ DeviceConsistent f1Mounts ∧
-    f1Mounts.Pairwise (fun a b => a.srv ≠ b.srv) ∧
-    physRepl 0 f1Result.heldBefore = 2 ∧ physRepl 0 f1Result.heldAfter = 1 := by
-  refine ⟨?_, by unfold DistinctIds; decide, by unfold DeviceConsistent; decide, by decide, by decide, by decide⟩
-  unfold BalanceOK; simp only [RunOK]; decide
-
-/-- the F2 layout (two mounts on one server, no shared device) refutes it too: before 2, after 1 -/
-theorem C05_trash_safe_fails_F2 :
-    BalanceOK f2Env [0, 1] (wSorter f2Env) f2Mounts f2Reps ∧ DistinctIds f2Mounts ∧ DeviceConsistent f2Mounts ∧
-    f2Mounts.Pairwise (fun a b => a.dev = b.dev → a.dev = 0) ∧
-    physRepl 1 f2Result.heldBefore = 2 ∧ physRepl 1 f2Result.heldAfter = 1 := by
-  refine ⟨?_, by unfold DistinctIds; decide, by unfold DeviceConsistent; decide, by decide, by decide, by decide⟩
-  unfold BalanceOK; simp only [RunOK]; decide
-
-theorem C05_trash_safe_full_fails : ¬ C05_trash_safe_Full := by
-  intro h
-  have w := C05_trash_safe_fails_F1
-  have := h f1Env [0] (wSorter f1Env) f1Mounts f1Reps w.1 w.2.1 w.2.2.1 0 (by decide) (by decide)
-  have e1 : physRepl 0 (balanceBlock f1Env [0] (wSorter f1Env) f1Mounts f1Reps).heldBefore = 2 := w.2.2.2.2.1
-  have e2 : physRepl 0 (balanceBlock f1Env [0] (wSorter f1Env) f1Mounts f1Reps).heldAfter = 1 := w.2.2.2.2.2
-  rw [e1, e2] at this
-  revert this
-  decide
-
-/-- the same from F2 alone: excluding shared devices is not enough -/
-theorem C05_trash_safe_full_fails_F2 : ¬ C05_trash_safe_Full := by
-  intro h
-  have w := C05_trash_safe_fails_F2
-  have := h f2Env [0, 1] (wSorter f2Env) f2Mounts f2Reps w.1 w.2.1 w.2.2.1 1 (by decide) (by decide)
-  have e1 : physRepl 1 (balanceBlock f2Env [0, 1] (wSorter f2Env) f2Mounts f2Reps).heldBefore = 2 := w.2.2.2.2.1
-  have e2 : physRepl 1 (balanceBlock f2Env [0, 1] (wSorter f2Env) f2Mounts f2Reps).heldAfter = 1 := w.2.2.2.2.2
-  rw [e1, e2] at this
-  revert this
-  decide
-
-/-- no device id is used by two mounts (blank ids are private) -/
-def NoSharedDevice (mounts : List Mount) : Prop := mounts.Pairwise (fun a b => a.dev = b.dev → a.dev = 0)
-/-- no two mounts on one server -/
-def OneMountPerServer (mounts : List Mount) : Prop := mounts.Pairwise (fun a b => a.srv ≠ b.srv)
-
-/-- `C05_trash_safe` for layouts with one mount per server and no shared device: for every class of
-the loop with desired d > 0, after executing all trashes (no pull succeeding) the replication of
-the class over distinct physical devices is ≥ min(d, what it was). Any number of services and
-classes, any flags/replication/timestamps, every behaviour of the unstable sort. -/
-theorem C05_trash_safe_partial (hok : BalanceOK env classes sorter mounts reps)
-    (hid : DistinctIds mounts) (hdev : NoSharedDevice mounts) (hsrv : OneMountPerServer mounts)
+/-- `C05_trash_safe`, at full strength: for every layout and every block, carrying out every
+computed trash request while no pull succeeds leaves each class of the loop with desired d > 0 at
+replication ≥ min(d, what it was), counted over distinct physical devices (a trash on any view of a
+device is taken to remove the device's replica). Any number of services, mounts per server and
+classes; devices blank, unique or shared; any flags, replication counts and timestamps; every
+behaviour of the unstable sort. -/
+theorem C05_trash_safe (hok : BalanceOK env classes sorter mounts reps)
+    (hid : DistinctIds mounts) (hcons : DeviceConsistent mounts)
     (c : Class) (hc : c ∈ classes) (hd : env.desired c ≠ 0) :
     min (env.desired c) (physRepl c (balanceBlock env classes sorter mounts reps).heldBefore) ≤
       physRepl c (balanceBlock env classes sorter mounts reps).heldAfter := by
-  apply trash_safe_of_apart env classes sorter mounts reps hok _ c hc hd
-  unfold DistinctIds at hid
-  unfold NoSharedDevice at hdev
-  unfold OneMountPerServer at hsrv
-  exact ((hid.and hsrv).and hdev).imp (fun {a b} h => ⟨h.1.1, h.1.2, h.2⟩)
+  apply trash_safe_of_guar env classes sorter mounts reps hok hid hcons c
+  have hid0 : IdsDistinct (initSlots mounts reps) := by
+    show DistinctIds ((initSlots mounts reps).map (·.mnt))
+    rw [initSlots_mnt]; exact hid
+  exact runClasses_guar env sorter c classes _ hok hid0 hc hd
 
-/-- Weaker hypothesis for servers with several mounts: no shared device, and every replica of the
-block sits on a mount of class `c` (nothing outside the class can absorb the protection — the
-ingredient of F2). Any number of mounts per server. -/
-theorem C05_trash_safe_partial_multimount (hok : BalanceOK env classes sorter mounts reps)
-    (hid : DistinctIds mounts) (hdev : NoSharedDevice mounts)
-    (c : Class) (hc : c ∈ classes) (hd : env.desired c ≠ 0)
-    (hall : ∀ m ∈ mounts, (replicaOn reps m.id).isSome = true → inClass c m = true) :
-    min (env.desired c) (physRepl c (balanceBlock env classes sorter mounts reps).heldBefore) ≤
-      physRepl c (balanceBlock env classes sorter mounts reps).heldAfter := by
-  apply trash_safe_of_inclass env classes sorter mounts reps hok _ c hc hd hall
-  unfold DistinctIds at hid
-  unfold NoSharedDevice at hdev
-  exact (hid.and hdev).imp (fun {a b} h => ⟨h.1, h.2⟩)
+/-- end to end from the discovered layout: `plan` = cleanupMounts, setupLookupTables, balanceBlock -/
+theorem C05_trash_safe_plan (dflt : Class) (svcs : List RawService) (hok : PlanOK env dflt sorter svcs reps)
+    (hid : DistinctIds (effMounts dflt (cleanupMounts svcs)))
+    (hcons : DeviceConsistent (effMounts dflt (cleanupMounts svcs)))
+    (c : Class) (hc : c ∈ classesOf dflt (cleanupMounts svcs)) (hd : env.desired c ≠ 0) :
+    min (env.desired c) (physRepl c (plan env dflt sorter svcs reps).heldBefore) ≤
+      physRepl c (plan env dflt sorter svcs reps).heldAfter :=
+  C05_trash_safe env _ sorter _ reps hok hid hcons c hc hd
 
-/-- In particular a cluster without storage classes (every mount in the one class), with any number
-of mounts per server and no shared device, is safe. -/
-theorem C05_trash_safe_single_class (hok : BalanceOK env classes sorter mounts reps)
-    (hid : DistinctIds mounts) (hdev : NoSharedDevice mounts)
-    (c : Class) (hc : c ∈ classes) (hd : env.desired c ≠ 0) (hall : ∀ m ∈ mounts, inClass c m = true) :
-    min (env.desired c) (physRepl c (balanceBlock env classes sorter mounts reps).heldBefore) ≤
-      physRepl c (balanceBlock env classes sorter mounts reps).heldAfter :=
-  C05_trash_safe_partial_multimount env classes sorter mounts reps hok hid hdev c hc hd (fun m hm _ => hall m hm)
-
-/-- non-vacuity: two servers with two mounts each (distinct devices, all in class 0), replicas on
-three mounts, desired 2: one replica is trashed, two remain -/
+/-- non-vacuity, and the layouts on which the code failed before the fix: commits:
+F1 (device 7 mounted on two servers; ranks empty, empty, 7, 7, 8-old; desired 2): device 8 is now
+kept (2 → 2); F2 (class 1 desired 2; two class-1 mounts on server 0, a class-0 mount on server 1,
+all holding the block): nothing is trashed (2 → 2); and a layout where something IS trashed: four
+single-mount servers, replicas new/old/old, desired 2: the worst-placed old replica goes (3 → 2). -/
 example :
-    let ms : List Mount := [mkMount 0 0 1 [0], mkMount 1 0 2 [0], mkMount 2 1 3 [0], mkMount 3 1 4 [0]]
-    let rs : List Replica := [⟨0, 0, 900⟩, ⟨1, 0, 901⟩, ⟨2, 1, 902⟩]
-    BalanceOK okEnv [0] (wSorter okEnv) ms rs ∧ DistinctIds ms ∧ NoSharedDevice ms ∧ (∀ m ∈ ms, inClass 0 m = true) ∧
-    physRepl 0 (balanceBlock okEnv [0] (wSorter okEnv) ms rs).heldBefore = 3 ∧
-    physRepl 0 (balanceBlock okEnv [0] (wSorter okEnv) ms rs).heldAfter = 2 := by
-  refine ⟨?_, by unfold DistinctIds; decide, by unfold NoSharedDevice; decide, by decide, by decide, by decide⟩
-  unfold BalanceOK; simp only [RunOK]; decide
-
-/-- non-vacuity: in the quadrant, a layout with a pull, a kept-because-new, a protected and a
-trashed replica; replication 2 before among old+new, 2 after -/
-example : BalanceOK okEnv [0] (wSorter okEnv) okMounts okReps ∧ DistinctIds okMounts ∧ NoSharedDevice okMounts ∧
-    OneMountPerServer okMounts ∧ physRepl 0 okResult.heldBefore = 3 ∧ physRepl 0 okResult.heldAfter = 2 ∧
+    BalanceOK f1Env [0] (wSorter f1Env) f1Mounts f1Reps ∧ DistinctIds f1Mounts ∧ DeviceConsistent f1Mounts ∧
+    physRepl 0 f1Result.heldBefore = 2 ∧ physRepl 0 f1Result.heldAfter = 2 ∧
+    BalanceOK f2Env [0, 1] (wSorter f2Env) f2Mounts f2Reps ∧ DistinctIds f2Mounts ∧ DeviceConsistent f2Mounts ∧
+    physRepl 1 f2Result.heldBefore = 2 ∧ physRepl 1 f2Result.heldAfter = 2 ∧
+    BalanceOK okEnv [0] (wSorter okEnv) okMounts okReps ∧ DistinctIds okMounts ∧ DeviceConsistent okMounts ∧
+    physRepl 0 okResult.heldBefore = 3 ∧ physRepl 0 okResult.heldAfter = 2 ∧
     okResult.changes.map (fun p => (p.1.mnt.id, p.2)) = [(0, .pull (some 1)), (1, .stay), (2, .stay), (3, .trash 800)] := by
-  refine ⟨?_, by unfold DistinctIds; decide, by unfold NoSharedDevice; decide, by unfold OneMountPerServer; decide,
-    by decide, by decide, by decide⟩
+  refine ⟨?_, by unfold DistinctIds; decide, by unfold DeviceConsistent; decide, by decide, by decide,
+    ?_, by unfold DistinctIds; decide, by unfold DeviceConsistent; decide, by decide, by decide,
+    ?_, by unfold DistinctIds; decide, by unfold DeviceConsistent; decide, by decide, by decide, by decide⟩ <;>
+  · unfold BalanceOK; simp only [RunOK]; decide
+
+/-- a shared device with two mounts per server and two classes, something trashed -/
+example :
+    let ms : List Mount := [mkMount 0 0 7 [0], mkMount 1 0 2 [1], mkMount 2 1 7 [0], mkMount 3 1 4 [0], mkMount 4 2 5 [0]]
+    let rs : List Replica := [⟨0, 0, 900⟩, ⟨2, 1, 900⟩, ⟨3, 1, 901⟩, ⟨4, 2, 902⟩, ⟨1, 0, 903⟩]
+    let env := wEnv (fun c => if c = 0 then 2 else 0)
+    BalanceOK env [0, 1] (wSorter env) ms rs ∧ DistinctIds ms ∧ DeviceConsistent ms ∧
+    physRepl 0 (balanceBlock env [0, 1] (wSorter env) ms rs).heldBefore = 3 ∧
+    physRepl 0 (balanceBlock env [0, 1] (wSorter env) ms rs).heldAfter = 2 := by
+  refine ⟨?_, by unfold DistinctIds; decide, by unfold DeviceConsistent; decide, by decide, by decide⟩
   unfold BalanceOK; simp only [RunOK]; decide
 
 end ArvVerif.C05
